@@ -8,6 +8,7 @@ import PotasscoVerif.Drv.Aspif
 import PotasscoVerif.Drv.Smodels
 import PotasscoVerif.Drv.Signals
 import PotasscoVerif.Drv.StringBuilder
+import PotasscoVerif.Drv.StringConvert
 open PotasscoVerif.Drv
 
 def dispatch (line : String) : String :=
@@ -22,6 +23,7 @@ def dispatch (line : String) : String :=
   | "sr" :: args => runSR args
   | "sg" :: args => runSG args
   | "sb" :: args => runSB args
+  | "sc" :: args => runSC args
   | _ => "bad-component"
 
 partial def loop (h : IO.FS.Stream) (out : IO.FS.Stream) : IO Unit := do
